@@ -30,22 +30,44 @@ func stripIDs(s string) string {
 	return sortMessageParts(ptrRe.ReplaceAllString(idRe.ReplaceAllString(s, `"id":"X"`), "(0xPTR)"))
 }
 
-var msgRe = regexp.MustCompile(`"message":"((?:[^"\\]|\\.)*)"`)
+var msgRe = regexp.MustCompile(`"name":"((?:[^"\\]|\\.)*)","id":"X","message":"((?:[^"\\]|\\.)*)"`)
 
 // sortMessageParts orders the "; "-separated parts of a merged goa error message: the generated validation code
 // visits the entries of a map in Go's randomised iteration order, so the ORDER of the parts differs from run to
-// run (concurrent or not) while their multiset is the observation.
+// run (concurrent or not) while their multiset is the observation. goa.MergeErrors keeps the NAME of the first
+// error merged, so for a merged message the name is whichever part came first: not compared.
 func sortMessageParts(s string) string {
-	sortParts := func(m string) string {
-		parts := strings.Split(m, "; ")
-		sort.Strings(parts)
-		return strings.Join(parts, "; ")
-	}
-	s = msgRe.ReplaceAllStringFunc(s, func(m string) string {
+	return msgRe.ReplaceAllStringFunc(s, func(m string) string {
 		sub := msgRe.FindStringSubmatch(m)
-		return `"message":"` + sortParts(sub[1]) + `"`
+		parts := strings.Split(sub[2], "; ")
+		name := sub[1]
+		if len(parts) > 1 {
+			sort.Strings(parts)
+			name = "*first-of-merged*"
+		}
+		return `"name":"` + name + `","id":"X","message":"` + strings.Join(parts, "; ") + `"`
 	})
-	return s
+}
+
+// stripTree applies stripIDs to every string of a canonical tree (error bodies quoted inside client errors).
+func stripTree(v any) any {
+	switch x := v.(type) {
+	case string:
+		return stripIDs(x)
+	case []any:
+		o := make([]any, len(x))
+		for i := range x {
+			o[i] = stripTree(x[i])
+		}
+		return o
+	case map[string]any:
+		o := map[string]any{}
+		for k, e := range x {
+			o[k] = stripTree(e)
+		}
+		return o
+	}
+	return v
 }
 
 // observable renders everything a client/service could observe of an exchange, without per-run noise.
@@ -78,9 +100,26 @@ func observable(ex *rt.Exchange) map[string]string {
 	if ex.ClientOut != nil {
 		o["client_result"] = j(ex.ClientOut.Result)
 		if e := ex.ClientOut.Err; e != nil {
-			cm := strings.Split(stripIDs(e.Message), "; ")
-			sort.Strings(cm)
-			o["client_err"] = e.GoType + "|" + e.Name + "|" + strings.Join(cm, "; ") + "|" + j(e.Tree)
+			// a merged error decoded by the client (name = first part's) or a body quoted in a ClientError
+			msg, name := stripIDs(e.Message), e.Name
+			if !strings.Contains(msg, `"message":"`) {
+				if cm := strings.Split(msg, "; "); len(cm) > 1 {
+					sort.Strings(cm)
+					msg, name = strings.Join(cm, "; "), "*first-of-merged*"
+				}
+			}
+			var tree any
+			if b, err := json.Marshal(e.Tree); err == nil {
+				_ = json.Unmarshal(b, &tree)
+			}
+			if tm, ok := tree.(map[string]any); ok && name == "*first-of-merged*" {
+				delete(tm, "name")
+				delete(tm, "Name")
+				delete(tm, "message")
+				delete(tm, "Message")
+			}
+			tb, _ := json.Marshal(stripTree(tree))
+			o["client_err"] = e.GoType + "|" + name + "|" + msg + "|" + string(tb)
 		}
 	}
 	if ex.Panic != "" {
